@@ -40,7 +40,7 @@ package execution
 //@   loop 0 invariant shards: 0 <= i && i <= numShards && numShards >= 1 && len(operators) == i
 
 //@ func newVectorBinaryOperator
-//@   requires e != nil && selectorPool != nil && !isnil(selectorPool.selectors) && optsOK(opts)
+//@   requires e != nil && selectorPool != nil && poolInv(selectorPool) && optsOK(opts)
 //@   requires e.LHS.Type() != parser.ValueTypeScalar && e.RHS.Type() != parser.ValueTypeScalar
 //@   requires[C16] hints.Func == "" && len(hints.Grouping) == 0 && !hints.By
 //@   ensures[C08] err-is-unsupported-or-remote: result1 != nil ==> result1.isNS || result1.isNI || result1.fromRemote
@@ -54,7 +54,7 @@ package execution
 // newScalarBinaryOperator: the vector side is passed as `next`, the scalar side as `scalar`; the
 // side flag says where the scalar stood in the expression (C05).
 //@ func newScalarBinaryOperator
-//@   requires e != nil && selectorPool != nil && !isnil(selectorPool.selectors) && optsOK(opts)
+//@   requires e != nil && selectorPool != nil && poolInv(selectorPool) && optsOK(opts)
 //@   requires[C16] hints.Func == "" && len(hints.Grouping) == 0 && !hints.By
 //@   ensures[C08] err-is-unsupported-or-remote: result1 != nil ==> result1.isNS || result1.isNI || result1.fromRemote
 //@   ensures ok-nonnil: result1 == nil ==> result0 != nil
@@ -78,9 +78,10 @@ package execution
 // each operator is built from the node's own parameters.
 //@ pred sameHintsRange(h, g) = h.Start == g.Start && h.End == g.End && h.Step == g.Step
 //@ func newOperator
-//@   requires storage != nil && !isnil(storage.selectors) && optsOK(opts)
+//@   requires storage != nil && poolInv(storage) && optsOK(opts)
 //@   ensures[C08] err-is-unsupported-or-remote: result1 != nil ==> result1.isNS || result1.isNI || result1.fromRemote
 //@   ensures ok-nonnil: result1 == nil ==> result0 != nil
+//@   ensures pool-kept: poolInv(storage)
 //@   ensures[C08] unknown-node-is-unsupported: expr == nil ==> result1 != nil && result1.isNS
 //@   ensures[C08] string-literal-not-implemented: istype(expr, *parser.StringLiteral) ==> result1 != nil && result1.isNI
 //@   ensures[C08] subquery-unsupported: istype(expr, *parser.SubqueryExpr) ==> result1 != nil && result1.isNS
